@@ -1428,6 +1428,76 @@ def collect_argument_writes():
     return rows
 
 
+# ------------------------------------------------------- set iteration order that reaches an ordered container
+def collect_set_iteration():
+    """`for x in <set-valued expr>: <list>.append(..)` (also .extend/.insert/+=), `<list>.extend(<set-valued expr>)`,
+    `list(<set-valued expr>)` in loaders.py / utils.py / hdf5/*.py.  The hashes of str are randomised per process
+    (PYTHONHASHSEED), so the order in which a set of ids is iterated is process state that is not input.  sorted(<set>),
+    membership tests and len() are not listed."""
+    rows = []
+
+    def keyslike(e):
+        return isinstance(e, ast.Call) and isinstance(e.func, ast.Attribute) and e.func.attr in ("keys", "items") and not e.args
+
+    def setvalued(e, names):
+        if isinstance(e, (ast.Set, ast.SetComp)):
+            return True
+        if isinstance(e, ast.Call) and isinstance(e.func, ast.Name) and e.func.id in ("set", "frozenset"):
+            return True
+        if isinstance(e, ast.Call) and isinstance(e.func, ast.Attribute) and e.func.attr in (
+                "union", "intersection", "difference", "symmetric_difference") and (setvalued(e.func.value, names) or keyslike(e.func.value)):
+            return True
+        if isinstance(e, ast.BinOp) and isinstance(e.op, (ast.Sub, ast.BitAnd, ast.BitOr, ast.BitXor)):
+            return any(setvalued(x, names) or keyslike(x) for x in (e.left, e.right))
+        if isinstance(e, ast.Name):
+            return e.id in names
+        return False
+
+    for m in W.mods.values():
+        if not (m.name in ("neuroml.loaders", "neuroml.utils") or m.name.startswith("neuroml.hdf5")):
+            continue
+        for fn in m.all_fns:
+            nodes = fn.scope_nodes()
+            names = set()
+            changed = True
+            while changed:
+                changed = False
+                for n in nodes:
+                    if isinstance(n, ast.Assign) and setvalued(n.value, names):
+                        for t in n.targets:
+                            for nm in target_names(t):
+                                if nm not in names:
+                                    names.add(nm)
+                                    changed = True
+
+            def add(n, e, how):
+                rows.append({"module": m.name, "func": fn.qual, "line": getattr(n, "lineno", 0), "expr": ast.unparse(e)[:80], "how": how})
+
+            for n in nodes:
+                if isinstance(n, (ast.For, ast.AsyncFor)) and setvalued(n.iter, names):
+                    ordered = False
+                    for k in n.body + n.orelse:
+                        for x in ast.walk(k):
+                            if isinstance(x, ast.Call) and isinstance(x.func, ast.Attribute) and x.func.attr in ("append", "extend", "insert"):
+                                ordered = True
+                            if isinstance(x, ast.AugAssign) and isinstance(x.op, ast.Add):
+                                ordered = True
+                    if ordered:
+                        add(n, n.iter, "for loop whose body appends to a list")
+                elif isinstance(n, ast.Call) and isinstance(n.func, ast.Attribute) and n.func.attr == "extend" and n.args \
+                        and setvalued(n.args[0], names):
+                    add(n, n.args[0], "list.extend(<set>)")
+                elif isinstance(n, ast.Call) and isinstance(n.func, ast.Name) and n.func.id in ("list", "tuple") and n.args \
+                        and setvalued(n.args[0], names):
+                    add(n, n.args[0], "%s(<set>)" % n.func.id)
+                elif isinstance(n, (ast.ListComp, ast.GeneratorExp)) and any(setvalued(g.iter, names) for g in n.generators):
+                    par_sorted = False
+                    if not par_sorted:
+                        add(n, n.generators[0].iter, "comprehension over a set")
+    rows.sort(key=lambda r: (r["module"], r["line"]))
+    return rows
+
+
 def collect_entry_defaults(defaults):
     lo = W.mods["neuroml.loaders"]
     res = {"modes": {}, "calls": {}}
@@ -1659,6 +1729,7 @@ def main():
     classmeta = collect_classmeta()
     process = collect_process_state()
     argw = collect_argument_writes()
+    setorder = collect_set_iteration()
     entry = collect_entry_defaults(defaults) if "neuroml.loaders" in W.mods else {}
     bshape = builder_shape()
     seen = set()
@@ -1668,7 +1739,7 @@ def main():
         if k not in seen:
             seen.add(k)
             uniq.append(u)
-    doc = {"defaults": defaults, "fields": fields, "globals": globs, "classmeta": classmeta, "process_state": process, "argument_writes": argw, "external_state_calls": ext,
+    doc = {"defaults": defaults, "fields": fields, "globals": globs, "classmeta": classmeta, "process_state": process, "argument_writes": argw, "set_iteration_order": setorder, "external_state_calls": ext,
            "entry_defaults": entry, "builder_shape": bshape, "untranslatable": uniq,
            "modules": sorted(W.mods), "functions_scanned": sum(len(m.all_fns) for m in W.mods.values())}
     print(json.dumps(doc))
